@@ -232,6 +232,17 @@ fn run_variant(scratch: &Scratch, header_name: &str, text: &str, vname: &str, fl
             if agg.packed.is_none() && !agg.is_union && !c.is_union && c.fields.iter().any(|f| !f.is_unit && match (f.off_bits, f.layout) { (Some(o), Some((_, a))) => (o / 8) % a.max(1) != 0, _ => false }) {
                 regions.push("unpacked_misaligned_member".into());
             }
+            let rejected_shape = agg.packed.is_some() && (agg.align.is_some() || agg.fields.iter().any(|f| inv.contains_align(&f.1, 0)));
+            if let (Some(rl), false) = (&real_layout, rejected_shape) {
+                if c.fields.iter().any(|f| f.is_unit && match (irlayout::unit_start_bits(f), rl.offsets.iter().find(|(n, _)| n == &format!("_bitfield_{}", f.nth))) { (Some(s), Some((_, o))) => o * 8 != s, _ => false }) {
+                    regions.push("bitfield_unit_misplaced".into());
+                }
+            }
+            if let (Some(_), Some(rl), false, false) = (agg.packed, &real_layout, agg.is_union, rejected_shape) {
+                if c.fields.iter().any(|f| !f.is_unit && match (&f.name, f.off_bits) { (Some(n), Some(o)) => rl.offsets.iter().any(|(rn, ro)| rn == n && *ro < o / 8), _ => false }) {
+                    regions.push("packed_member_gap".into());
+                }
+            }
             let n = agg.fields.len();
             if n >= 2 && agg.fields[n - 1].0.starts_with("__bindgen_padding_") && agg.fields[n - 2].0.starts_with("__bindgen_padding_") { regions.push("explicit_padding_double_tail".into()); }
             if agg.fields.iter().any(|f| f.0.starts_with("__bindgen_padding_")) && agg.fields.iter().any(|f| f.0 == "bindgen_union_field") { regions.push("explicit_padding_union_wrapper".into()); }
@@ -275,15 +286,25 @@ fn run_variant(scratch: &Scratch, header_name: &str, text: &str, vname: &str, fl
                         }
                     }
                 }
+                let units_only = bad.is_empty();
+                let mut units_real = vec![];
+                for f in c.fields.iter().filter(|f| f.is_unit) {
+                    if let Some((_, ro)) = rl.offsets.iter().find(|(rn, _)| rn == &format!("_bitfield_{}", f.nth)) {
+                        units_real.push((f.nth, *ro));
+                        if let Some(s) = irlayout::unit_start_bits(f) {
+                            if ro * 8 != s { bad.push(format!("bit-field unit _bitfield_{}: rust byte {ro}, C bit {s} (byte {})", f.nth, s / 8)); }
+                        }
+                    }
+                }
                 if !bad.is_empty() {
                     // known finding? region on the real aggregate + model predicts exactly this wrong layout
                     let predicted = m.reprc.as_ref().map_or(false, |(s, a, o)| *s == rl.size && *a == rl.align && {
                         let mo: Vec<(usize, u64)> = o.iter().filter(|(i, _)| offs_real.iter().any(|(j, _)| j == i)).cloned().collect();
                         mo == offs_real
-                    });
+                    }) && m.unit_offsets == units_real;
                     let known = if regions_agree && !regions.is_empty() && predicted { Some(regions.join("+")) } else { None };
                     if known.is_some() { stats.known_hits += 1; }
-                    issues.push(mk("oracle", &c.rust_name, format!("{} | model reprC {:?} | request: {req} | answer: {ans}", bad.join("; "), m.reprc), known));
+                    issues.push(mk("oracle", &c.rust_name, format!("{}{} | model reprC {:?} | request: {req} | answer: {ans}", if units_only { "[units-only] " } else { "" }, bad.join("; "), m.reprc), known));
                 } else if stats.samples.len() < 3 && c.fields.len() >= 3 {
                     stats.samples.push(format!("{{\"variant\":{},\"request\":{},\"model\":{},\"real_layout\":{},\"clang\":{}}}", json_str(vname), json_str(req), json_str(ans),
                         json_str(&format!("{:?}", (rl.size, rl.align, &rl.offsets))), json_str(&format!("{:?}", (cs, ca)))));
@@ -540,12 +561,14 @@ fn run_header(scratch: &Scratch, tag: &str, text: &str, prog: Option<&Program>, 
     }
     let base = match base { Some(b) => b, None => return };
     let bad_comps: BTreeSet<String> = issues[before..].iter().filter(|i| i.class == "oracle" && i.variant == "base").map(|i| i.comp.clone()).collect();
+    // records whose size / alignment / plain-member offsets differ (what the embedded assertions can see)
+    let bad_visible: BTreeSet<String> = issues[before..].iter().filter(|i| i.class == "oracle" && i.variant == "base" && !i.detail.starts_with("[units-only]")).map(|i| i.comp.clone()).collect();
     let removed = if do_probes || do_roundtrip { accepted_types(scratch, tag, &base, text, "base", stats, issues) } else { BTreeSet::new() };
     // records whose own layout is wrong, and everything that contains them
     let bad_closure = base.inv.dependents(&bad_comps);
     if do_probes {
         validate_rustc(scratch, tag, &base, &removed, text, "base", stats, issues);
-        validate_asserts(scratch, tag, &base, &removed, text, &bad_closure, &bad_comps, stats, issues);
+        validate_asserts(scratch, tag, &base, &removed, text, &bad_closure, &bad_visible, stats, issues);
         validate_clang(scratch, tag, &scratch.path(&header_name), &base, &infos, text, stats, issues);
     }
     if do_roundtrip {
